@@ -517,6 +517,6 @@ func TestC06(t *testing.T) {
 		}
 	}
 	c06Part.Run(s, hx.PerShard(hx.Pick(240000, 4000000)))
-	c06Proof.Run(s, hx.PerShard(hx.Pick(8000, 320000)))
+	c06Proof.Run(s, hx.PerShard(hx.Pick(8000, 160000)))
 	c06Part.RunConcurrent(s, 8, hx.Pick(1500, 20000))
 }
